@@ -1,5 +1,5 @@
 (* Sx front end of the resend model (C06).
-   request:  [cstate, initiator, testreq_pending, nout, sout, clock, rows, begin?, end?, declined]
+   request:  [cstate, initiator, testreq_id?, nout, sout, clock, rows, begin?, end?, declined]
                rows     = [[seq, type, time, [[tag, value], ...]], ...]   (rowid order)
                begin?   = [] (tag absent) | [text]
                declined = numbers the application's should_replay declines
@@ -48,7 +48,7 @@ Definition filter_of (declined : list Z) (r : row) : bool := negb (existsb (Z.eq
 Definition run (req : sx) : sx :=
   match req with
   | SL [SI cs; ini; tp; SI no; SI so; SI ck; rs; b; e; decl] =>
-      match get_bool ini, get_bool tp, get_list get_row rs, get_opt get_str b, get_opt get_str e,
+      match get_bool ini, get_opt get_str tp, get_list get_row rs, get_opt get_str b, get_opt get_str e,
             get_list get_z decl with
       | Some ini, Some tp, Some rs, Some b, Some e, Some decl =>
           let s0 := mkSt cs ini tp no so ck rs [] [] [] in
